@@ -242,7 +242,7 @@ func (p *Prog) literalTest(v ssa.Value) (tau ssa.Value, negated, ok bool) {
 // not re-evaluated on some path keeps its unknown earlier value. Branches whose condition
 // can only be false/true after the failure are followed on that side only. Returns the
 // blocks reachable after the failure.
-func exploreAfterFailure(fn *ssa.Function, pred, blk *ssa.BasicBlock, forced map[ssa.Value]int) map[*ssa.BasicBlock]bool {
+func exploreAfterFailure(fn *ssa.Function, pred, blk *ssa.BasicBlock, forced map[ssa.Value]int, blocked ...func(from, to *ssa.BasicBlock) bool) map[*ssa.BasicBlock]bool {
 	env := map[*ssa.Phi]int{}
 	reached := map[*ssa.BasicBlock]bool{}
 	avoidCache := map[*ssa.BasicBlock]map[*ssa.BasicBlock]bool{}
@@ -301,6 +301,13 @@ func exploreAfterFailure(fn *ssa.Function, pred, blk *ssa.BasicBlock, forced map
 	}
 	changed := true
 	enter := func(from, to *ssa.BasicBlock, seed bool) {
+		if !seed {
+			for _, bl := range blocked {
+				if bl(from, to) {
+					return
+				}
+			}
+		}
 		idx := -1
 		for i, pr := range to.Preds {
 			if pr == from {
